@@ -55,7 +55,7 @@ func assignResize(left, right *token) {
 
 func assignLed(p *parser, t *token, left *token) *token {
 	t.Append(left)
-	t.Append(p.Expression(getSymbol(t).Lbp))
+	t.Append(p.Expression(getSymbol(t).Lbp, p.mask...))
 	t.Tokens[0] = plural(t.Tokens[0])
 	assignResize(t.Tokens[0], t.Tokens[1])
 	return t
